@@ -240,7 +240,7 @@ Proof.
 Qed.
 
 (* ================================================================== MinSetCover (C15) *)
-Lemma zipn_in {A} (l : list A) : forall s i x, In (i, x) (zipn s l) ->
+Lemma zipn_in_nth {A} (l : list A) : forall s i x, In (i, x) (zipn s l) ->
   exists n, (s <= n < s + length l)%nat /\ i = N.of_nat n /\ nth_error l (n - s) = Some x.
 Proof.
   induction l as [|y l IH]; intros s i x H; [destruct H|].
@@ -252,7 +252,7 @@ Qed.
 
 Lemma zipn_in_idxs {A} (l : list A) i x : In (i, x) (zipn 0 l) -> In i (idxs l).
 Proof.
-  intros H. destruct (zipn_in l 0 i x H) as (n & Hn & Hi & _). unfold idxs. apply in_layers. exists n. split; [lia|exact Hi].
+  intros H. destruct (zipn_in_nth l 0 i x H) as (n & Hn & Hi & _). unfold idxs. apply in_layers. exists n. split; [lia|exact Hi].
 Qed.
 
 Lemma bin_sum_ge1 {A} (g : A -> Q) l : (forall x, In x l -> bin (g x)) ->
@@ -336,7 +336,7 @@ Proof.
 Qed.
 
 (* ================================================================== MinGenSet: the search loop *)
-Lemma mgs_loop_on_spec status : forall ks tried res, mgs_loop_on status ks = (tried, res) ->
+Lemma mgsm_loop_on_spec status : forall ks tried res, mgsm_loop_on status ks = (tried, res) ->
   exists pre, Forall (fun k' => status k' = MgInfeasible) pre /\
   match res with
   | Some k => exists post, ks = pre ++ k :: post /\ tried = pre ++ [k] /\ status k = MgOptimal
@@ -344,11 +344,11 @@ Lemma mgs_loop_on_spec status : forall ks tried res, mgs_loop_on status ks = (tr
             (exists k post, ks = pre ++ k :: post /\ tried = pre ++ [k] /\ status k = MgOther)
   end.
 Proof.
-  induction ks as [|k r IH]; intros tried res H; cbn [mgs_loop_on] in H.
+  induction ks as [|k r IH]; intros tried res H; cbn [mgsm_loop_on] in H.
   - injection H as <- <-. exists []. split; [constructor|]. left. split; reflexivity.
   - destruct (status k) eqn:Es.
     + injection H as <- <-. exists []. split; [constructor|]. exists r. repeat split. exact Es.
-    + destruct (mgs_loop_on status r) as [t' r'] eqn:Er. injection H as <- <-.
+    + destruct (mgsm_loop_on status r) as [t' r'] eqn:Er. injection H as <- <-.
       destruct (IH t' r' eq_refl) as (pre & Hp & Hres). exists (k :: pre). split; [constructor; assumption|].
       destruct r' as [k'|].
       * destruct Hres as (post & -> & -> & Hs). exists post. repeat split. exact Hs.
@@ -375,31 +375,31 @@ Section MgsSearch.
 
   (* the loop answers k only if the model for k is optimal and every smaller size from the lower bound on
      was proven infeasible: k is the least feasible size >= lowerbound *)
-  Theorem mgs_loop_sound lb n tried k : mgs_loop status lb n = (tried, Some k) ->
-    feasible k /\ In k (mgs_range lb n) /\ (lb <= k)%nat /\ forall k', (lb <= k' < k)%nat -> ~ feasible k'.
+  Theorem mgsm_loop_sound lb n tried k : mgsm_loop status lb n = (tried, Some k) ->
+    feasible k /\ In k (mgsm_range lb n) /\ (lb <= k)%nat /\ forall k', (lb <= k' < k)%nat -> ~ feasible k'.
   Proof.
-    unfold mgs_loop. intros H. apply mgs_loop_on_spec in H. destruct H as (pre & Hp & post & Hks & Htr & Hs).
-    unfold mgs_range in *. destruct (seq_split_at _ _ _ _ _ Hks) as [Hpre Hk].
+    unfold mgsm_loop. intros H. apply mgsm_loop_on_spec in H. destruct H as (pre & Hp & post & Hks & Htr & Hs).
+    unfold mgsm_range in *. destruct (seq_split_at _ _ _ _ _ Hks) as [Hpre Hk].
     split; [apply opt_feasible; exact Hs|]. split; [rewrite Hks; apply in_or_app; right; left; reflexivity|]. split; [lia|].
     intros k' Hk'. apply inf_infeasible. rewrite Forall_forall in Hp. apply Hp. rewrite Hpre. apply in_seq. lia.
   Qed.
 
   (* unsolved means: the whole range was proven infeasible, or an inconclusive status was met (and the loop stopped there) *)
-  Theorem mgs_loop_none lb n tried : mgs_loop status lb n = (tried, None) ->
-    (tried = mgs_range lb n /\ forall k, In k (mgs_range lb n) -> ~ feasible k) \/
+  Theorem mgsm_loop_none lb n tried : mgsm_loop status lb n = (tried, None) ->
+    (tried = mgsm_range lb n /\ forall k, In k (mgsm_range lb n) -> ~ feasible k) \/
     (exists k, In k tried /\ status k = MgOther).
   Proof.
-    unfold mgs_loop. intros H. apply mgs_loop_on_spec in H. destruct H as (pre & Hp & [[-> Hpre]|(k & post & Hks & -> & Hs)]).
+    unfold mgsm_loop. intros H. apply mgsm_loop_on_spec in H. destruct H as (pre & Hp & [[-> Hpre]|(k & post & Hks & -> & Hs)]).
     - left. split; [reflexivity|]. intros k Hk. apply inf_infeasible. rewrite Forall_forall in Hp. apply Hp. rewrite Hpre. exact Hk.
     - right. exists k. split; [apply in_or_app; right; left; reflexivity|exact Hs].
   Qed.
 
   (* with conclusive statuses the loop succeeds whenever some size of its range is feasible *)
-  Theorem mgs_loop_complete lb n : (forall k, status k = MgOptimal \/ status k = MgInfeasible) ->
-    (exists k, In k (mgs_range lb n) /\ feasible k) -> exists tried k, mgs_loop status lb n = (tried, Some k).
+  Theorem mgsm_loop_complete lb n : (forall k, status k = MgOptimal \/ status k = MgInfeasible) ->
+    (exists k, In k (mgsm_range lb n) /\ feasible k) -> exists tried k, mgsm_loop status lb n = (tried, Some k).
   Proof.
-    intros Hc (k0 & Hin & Hf). unfold mgs_loop. induction (mgs_range lb n) as [|k r IH]; [destruct Hin|].
-    cbn [mgs_loop_on]. destruct (Hc k) as [E|E]; rewrite E.
+    intros Hc (k0 & Hin & Hf). unfold mgsm_loop. induction (mgsm_range lb n) as [|k r IH]; [destruct Hin|].
+    cbn [mgsm_loop_on]. destruct (Hc k) as [E|E]; rewrite E.
     - exists [k], k. reflexivity.
     - destruct Hin as [->|Hin]; [exfalso; apply (inf_infeasible _ E); exact Hf|].
       destruct (IH Hin) as (tried & k' & ->). exists (k :: tried), k'. reflexivity.
@@ -408,9 +408,9 @@ End MgsSearch.
 
 (* FIXED finding #14 (03febc7): the old loop skipped an inconclusive status and reported the next size as solved;
    the loop as it is now stops unsolved on the same history *)
-Theorem mgs_loop_old_skips_inconclusive_refuted : exists (status : nat -> mstatus) lb n tried k,
-  status 1%nat = MgOther /\ mgs_loop_old status lb n = (tried, Some k) /\ In 1%nat tried /\ (1 < k)%nat /\
-  mgs_loop status lb n = ([1%nat], None).
+Theorem mgsm_loop_old_skips_inconclusive_refuted : exists (status : nat -> mstatus) lb n tried k,
+  status 1%nat = MgOther /\ mgsm_loop_old status lb n = (tried, Some k) /\ In 1%nat tried /\ (1 < k)%nat /\
+  mgsm_loop status lb n = ([1%nat], None).
 Proof.
   exists (fun k => if (k =? 1)%nat then MgOther else MgOptimal), 1%nat, 3%nat, [1; 2]%nat, 2%nat.
   repeat split; try reflexivity; [left; reflexivity|lia].
@@ -435,11 +435,11 @@ Definition genset (mult : nat) (numbers : list Q) (total : Q) (g : list Q) : Pro
   Forall (fun v => 0 <= v) g /\ sumql g == total /\ forall a, In a numbers -> gen_by mult g a.
 
 (* FIXED finding #13 (2966290): numbers [5], total 6: the OLD loop's range is [1], size 1 has no generating multiset, size 2 has *)
-Theorem mgs_loop_old_upper_end_refuted : exists numbers total,
+Theorem mgsm_loop_old_upper_end_refuted : exists numbers total,
   (exists g, length g = 2%nat /\ genset 1 numbers total g) /\
   (forall g, length g = 1%nat -> ~ genset 1 numbers total g) /\
-  In 2%nat (mgs_range 1 (length numbers)) /\ ~ In 2%nat (mgs_range_old 1 (length numbers)) /\
-  forall status, snd (mgs_loop_old status 1 (length numbers)) = None \/ snd (mgs_loop_old status 1 (length numbers)) = Some 1%nat.
+  In 2%nat (mgsm_range 1 (length numbers)) /\ ~ In 2%nat (mgsm_range_old 1 (length numbers)) /\
+  forall status, snd (mgsm_loop_old status 1 (length numbers)) = None \/ snd (mgsm_loop_old status 1 (length numbers)) = Some 1%nat.
 Proof.
   exists [5], 6. split; [|split; [|split; [|split]]].
   - exists [1; 5]. split; [reflexivity|]. split; [|split].
@@ -452,13 +452,13 @@ Proof.
     assert (x = 0 \/ x = 1)%Z as [->| ->] by lia; try change (inject_Z 0) with 0 in He; try change (inject_Z 1) with 1 in He; lra.
   - cbn. right. left. reflexivity.
   - cbn. intros [C|[]]. discriminate.
-  - intros status. unfold mgs_loop_old. cbn. destruct (is_opt (status 1%nat)); [right|left]; reflexivity.
+  - intros status. unfold mgsm_loop_old. cbn. destruct (is_opt (status 1%nat)); [right|left]; reflexivity.
 Qed.
 
 (* second witness of #13: [1,2,4], total 7: {1,2,4} has size 3 = len(numbers), which the range excludes *)
-Theorem mgs_loop_old_upper_end_refuted2 : exists numbers total,
+Theorem mgsm_loop_old_upper_end_refuted2 : exists numbers total,
   (exists g, length g = 3%nat /\ genset 1 numbers total g) /\
-  ~ In 3%nat (mgs_range_old 1 (length numbers)) /\ In 3%nat (mgs_range 1 (length numbers)).
+  ~ In 3%nat (mgsm_range_old 1 (length numbers)) /\ In 3%nat (mgsm_range 1 (length numbers)).
 Proof.
   exists [1; 2; 4], 7. split; [|split].
   - exists [1; 2; 4]. split; [reflexivity|]. split; [|split].
